@@ -115,7 +115,7 @@ def rejections_rule(ctx, rep, rule):
         rep.missing(rule, "reference/format_surface.json: stream.rejections")
         return
     leaves, par, defs = pure_leaves(F)
-    per = {d.replace(P, ""): len(_err.own_errors(F, F.bodies[d])) for d in defs if d in F.bodies}
+    per = {d.replace(P, ""): len(_err.error_constructions(F, F.bodies[d])) for d in defs if d in F.bodies}
     cur = sum(per.values())
     rep.add(rule, "no-new-rejection-on-the-reconstruction-path", cur <= ref["stream"]["rejections"], "",
             "%d error results constructed by reconstruction-path functions (reference %d): %s" % (cur, ref["stream"]["rejections"], {k: v for k, v in sorted(per.items()) if v}))
@@ -197,7 +197,7 @@ def compute_surface(F):
     S["stream"]["literals"] = literals(F, sig_fns)
     # ---- what the reader of stored data refuses ---------------------------------------------------------------
     from .. import err as _err
-    S["stream"]["rejections"] = sum(len(_err.own_errors(F, F.bodies[d])) for d in defs if d in F.bodies)
+    S["stream"]["rejections"] = sum(len(_err.error_constructions(F, F.bodies[d])) for d in defs if d in F.bodies)
     # ---- closed forms -------------------------------------------------------------------------------
     for d in leaves:
         try:
